@@ -620,6 +620,145 @@ theorem lineEntries_vLines (pf : SPrefs) (s : Vars) (hn : pf.normalizedVarNames 
     | var n v => simp only [List.map_cons, List.filterMap_cons, ih]; simp [varNameText, hn, REnv.default]
     | other c => simp only [List.map_cons, List.filterMap_cons, ih]
 
+/-! ## reparse at item level -/
+
+/-- a written property is its three fields -/
+theorem propTextP_fields (pf : SPrefs) (re : REnv) (p : Pty) (h : propTextP pf re p ≠ []) :
+    propTextP pf re p = nameText pf p ++ [58] ++ valueField pf re p ++ prioText pf p := by
+  unfold propTextP at h ⊢
+  by_cases hg : (p.nameSeq != [] && p.wf && (!pf.validOnly || (pf.validOnly && re.valid p))) = true
+  · have hn : p.nameSeq ≠ [] := by
+      simp only [Bool.and_eq_true, bne_iff_ne, ne_eq] at hg; exact hg.1.1
+    have hm : p.nameSeq.map (namePartText pf p) ≠ [] := by simpa using hn
+    simp only [hg, if_true, bne_iff_ne, ne_eq, hm, not_false_eq_true]
+    unfold nameText prioText valueField
+    by_cases hp : p.prioSeq = []
+    · simp [hp]
+    · simp [hp]
+  · simp [hg] at h
+
+/-- what the property statement calls an entry: (normalised name, value, priority) -/
+def entryKey (p : Pty) : Cps × Val × Cps := (p.name, p.val, p.prio)
+
+/-- the declaration written for `p`, parsed on its own by `Property.cssText = …`, is accepted and denotes the same
+entry (a condition on the front end — tokenizer and value grammar are parameters of the model) -/
+def ReparseOk (env : Env) (pf : SPrefs) (re : REnv) (p : Pty) : Prop :=
+  ∃ q, propFromDecl env (nameText pf p) (valueField pf re p) (prioText pf p) = .ok q ∧ q.wf = true ∧
+    entryKey q = entryKey p
+
+def writtenComments (pf : SPrefs) : List Item → List Item
+  | [] => []
+  | .comment t :: r => if pf.keepComments then .comment (commentText pf t) :: writtenComments pf r else writtenComments pf r
+  | _ :: r => writtenComments pf r
+
+theorem reparse_fold (env : Env) (pf : SPrefs) (re : REnv) (l acc : List Item)
+    (hok : ∀ p ∈ props l, propTextP pf re p ≠ [] → ReparseOk env pf re p) :
+    ∃ r, (srcOf pf re l).foldlM (srcStep env) acc = .ok r ∧
+      (props r).map entryKey =
+        (props acc).map entryKey ++ ((props l).filter (fun p => propTextP pf re p != [])).map entryKey ∧
+      nonProps r = nonProps acc ++ writtenComments pf l := by
+  induction l generalizing acc with
+  | nil => exact ⟨acc, rfl, by simp [props], by simp [writtenComments]⟩
+  | cons it rest ih =>
+    have hrest : ∀ p ∈ props rest, propTextP pf re p ≠ [] → ReparseOk env pf re p := by
+      intro p hp; apply hok; cases it <;> simp [props, hp]
+    simp only [srcOf, List.flatMap_cons, List.foldlM_append]
+    cases it with
+    | comment t =>
+      by_cases hk : pf.keepComments = true
+      · obtain ⟨r, hr, h1, h2⟩ := ih (acc ++ [.comment (commentText pf t)]) hrest
+        refine ⟨r, ?_, ?_, ?_⟩
+        · simp only [srcOfItem, hk, if_true, List.foldlM_cons, List.foldlM_nil, srcStep, bind, Except.bind, pure, Except.pure]
+          exact hr
+        · rw [h1]; simp [props_append, props]
+        · rw [h2]; simp [nonProps_append, nonProps, writtenComments, hk]
+      · obtain ⟨r, hr, h1, h2⟩ := ih acc hrest
+        refine ⟨r, ?_, ?_, ?_⟩
+        · simp only [srcOfItem, hk, Bool.false_eq_true, if_false, List.foldlM_nil, bind, Except.bind, pure, Except.pure]
+          exact hr
+        · rw [h1]; simp [props]
+        · rw [h2]; simp [writtenComments, hk]
+    | other t =>
+      obtain ⟨r, hr, h1, h2⟩ := ih acc hrest
+      refine ⟨r, ?_, ?_, ?_⟩
+      · simp only [srcOfItem, List.foldlM_nil, bind, Except.bind, pure, Except.pure]
+        exact hr
+      · rw [h1]; simp [props]
+      · rw [h2]; simp [writtenComments]
+    | prop p =>
+      by_cases ht : propTextP pf re p = []
+      · obtain ⟨r, hr, h1, h2⟩ := ih acc hrest
+        refine ⟨r, ?_, ?_, ?_⟩
+        · simp only [srcOfItem, ht, bne_self_eq_false, Bool.false_eq_true, if_false, List.foldlM_nil, bind, Except.bind, pure, Except.pure]
+          exact hr
+        · rw [h1]; simp [props, ht]
+        · rw [h2]; simp [writtenComments]
+      · obtain ⟨q, hq, hwf, hkey⟩ := hok p (by simp [props]) ht
+        obtain ⟨r, hr, h1, h2⟩ := ih (acc ++ [.prop q]) hrest
+        refine ⟨r, ?_, ?_, ?_⟩
+        · have hb : (propTextP pf re p != []) = true := by simpa using ht
+          simp only [srcOfItem, hb, if_true, List.foldlM_cons, List.foldlM_nil, srcStep, hq, hwf, bind, Except.bind, pure, Except.pure]
+          exact hr
+        · rw [h1]
+          have hb : (propTextP pf re p != []) = true := by simpa using ht
+          simp [props_append, props, hb, hkey]
+        · rw [h2]; simp [nonProps_append, nonProps, writtenComments]
+
+/-! ## reparse of the variables block at item level -/
+
+theorem vReparse_fold (l : List VItem) (a : VAcc) (hn : (dkeys (a.vars ++ varsOf l)).Nodup) :
+    ∃ b, (vSrcOf l).foldlM vSrcStep a = .ok b ∧ b.seq = a.seq ++ l ∧ b.vars = a.vars ++ varsOf l := by
+  induction l generalizing a with
+  | nil => exact ⟨a, rfl, by simp, by simp [varsOf]⟩
+  | cons x t ih =>
+    cases x with
+    | var n v =>
+      have hnot : normalize n ∉ dkeys a.vars := by
+        intro hc
+        simp only [varsOf, dkeys, List.map_append, List.map_cons] at hn hc
+        rw [List.nodup_append] at hn
+        exact hn.2.2 _ hc _ (by simp) rfl
+      have hcont : ((a.vars.map (·.1)).contains (normalize n)) = false := by
+        rw [← Bool.not_eq_true, List.contains_iff_mem]; exact hnot
+      have hn' : (dkeys ((dictSet a.vars (normalize n) v) ++ varsOf t)).Nodup := by
+        rw [dictSet_new a.vars (normalize n) v hnot]
+        simpa [varsOf, List.append_assoc] using hn
+      obtain ⟨b, hb, h1, h2⟩ := ih { nameitem := some n, seq := a.seq ++ [.var n v], vars := dictSet a.vars (normalize n) v } hn'
+      refine ⟨b, ?_, ?_, ?_⟩
+      · simp only [vSrcOf, List.foldlM_cons, vSrcStep, bind, Except.bind, hcont, Bool.false_eq_true, if_false]
+        exact hb
+      · rw [h1]; simp
+      · rw [h2, dictSet_new a.vars (normalize n) v hnot]; simp [varsOf]
+    | other c =>
+      obtain ⟨b, hb, h1, h2⟩ := ih { a with seq := a.seq ++ [.other c] } (by simpa [varsOf] using hn)
+      refine ⟨b, ?_, ?_, ?_⟩
+      · simp only [vSrcOf, List.foldlM_cons, vSrcStep, bind, Except.bind]
+        exact hb
+      · rw [h1]; simp
+      · rw [h2]; simp [varsOf]
+
+/-- the written items denote the same variables: always with literal names; with normalised names when the keys are
+stable under `normalize` -/
+theorem varsOf_vWritten (pf : SPrefs) (seq : List VItem)
+    (hk : pf.normalizedVarNames = true → ∀ e ∈ varsOf seq, normalize e.1 = e.1) :
+    varsOf (vWritten pf seq) = varsOf seq := by
+  induction seq with
+  | nil => rfl
+  | cons x t ih =>
+    cases x with
+    | var n v =>
+      have ht := ih (fun hp e he => hk hp e (by simp [varsOf, he]))
+      simp only [vWritten, varsOf, ht]
+      by_cases hp : pf.normalizedVarNames = true
+      · have := hk hp (normalize n, v) (by simp [varsOf])
+        simp only [varNameText, hp, if_true]
+        simp only [] at this
+        rw [this]
+      · simp [varNameText, hp]
+    | other c =>
+      have ht := ih (fun hp e he => hk hp e (by simpa [varsOf] using he))
+      by_cases hc : pf.keepComments = true <;> simp [vWritten, varsOf, hc, ht]
+
 /-! ## witnesses for the examples of `Props/C10.lean` -/
 
 /-- `c: 1 !important; /*k*/ c: 2` -/
@@ -634,5 +773,10 @@ def renderWitness : List Item :=
 def varsWitness : Vars :=
   { vars := [([120], ⟨[49], [49]⟩), ([121], ⟨[50], [50]⟩)],
     seq := [.var [120] ⟨[49], [49]⟩, .other (cps "/*k*/"), .var [121] ⟨[50], [50]⟩] }
+
+/-- `c: 2` -/
+def reparseWitness : List Item :=
+  [.prop { wf := true, nameSeq := [.str [99]], lit := [99], name := [99], val := ⟨[50], [50]⟩,
+           prioSeq := [], litPrio := [], prio := [] }]
 
 end CssVerif.Decl
